@@ -98,8 +98,13 @@ def run(run: Run) -> int:
     cases, hist = gen_cases(run, n)
     corner = sibling_duplicate_case()
     B.run_impl(corner)
+    from harness import c14
+    extra_corners = [c for c in c14.nested_varying_cases() if c.meta.get("same_name_two_domains_in_sibling_branches") or c.meta.get("function_on_unknown_rank")]
     corner.coq = None        # the model's validator rejects this output by design (value name defined twice)
     cases.append(corner)
+    for c in extra_corners:
+        c.meta["names"] = "corner:functions"
+        cases.append(c)
     mixed = mixed_cases(run, n // 4)
     for c in mixed:
         B.run_impl(c)
